@@ -354,6 +354,8 @@ def rule_mapping_fields(ctx, m, modules):
                         for x in walk_expr(e):
                             if x[0] == 'attr' and x[1][0] == 'attr' and x[1][1] == ('var', 'self') and x[1][2] in mapping:
                                 n += 1
+                                if x[2] in _DICT_ATTRS:
+                                    ctx.held('R-SIG', '%s:%s self.%s.%s is a mapping method' % (mname.split('.')[-1], q, x[1][2], x[2]))
                                 if x[2] not in _DICT_ATTRS:
                                     ctx.violation('R-SIG', mod.path, q, 'attribute %s of mapping field %s' % (x[2], x[1][2]),
                                                   '`self.%s` is used as a mapping elsewhere in this module (`**self.%s`, `.get(...)`), but `%s` reads/writes the attribute `%s` on it: '
